@@ -98,8 +98,9 @@ def run(ctx: Context) -> None:
         if isinstance(core, ast.Call) and isinstance(core.func, ast.Attribute) and core.func.attr == 'reset_coords' \
                 and const_value(kwarg(core, 'drop') or ast.Constant(None), None) is True and not core.args:
             core, bare = core.func.value, True
-        elif isinstance(core, ast.Attribute) and core.attr in ('variable', 'values', 'data'):
-            core, bare = core.value, True
+        elif isinstance(core, ast.Attribute) and core.attr == 'variable':
+            core, bare = core.value, True        # a Variable keeps its dimension names and has no coordinates
+        # (.values / .data / .to_numpy() would lose the dimension names: where() would then pair mask and data by position)
         ok = (norm_text(w.func.value) == d_p and core is not None and norm_text(core) == mvar and other is not None
               and mflow.reaches(other, lambda n: isinstance(n, ast.Call) and callee(ctx, md, n) == f"{MASKING}.find_fill_value"))
         ctx.check('R08.2', ok, "values are kept where the mask is True and replaced by the fill value elsewhere: data_array.where(mask, other=fill)", md, w,
@@ -340,6 +341,8 @@ from ..variants import V  # noqa: E402
 _M = 'src/emsarray/masking.py'
 _U = 'src/emsarray/conventions/ugrid.py'
 VARIANTS = [
+    V('C08', 'mask-applied-by-position', 'src/emsarray/masking.py', "condition = mask_data_array.reset_coords(drop=True)", "condition = mask_data_array.values", 'R08.2'),
+    V('C08', 'benign-mask-as-variable', 'src/emsarray/masking.py', "condition = mask_data_array.reset_coords(drop=True)", "condition = mask_data_array.variable", None),
     V('C08', 'mask-coordinates-attached', 'src/emsarray/masking.py', "            condition = mask_data_array.reset_coords(drop=True)\n", "            condition = mask_data_array\n", 'R08.2'),
     V('C08', 'where-inverted', _M, "data_array.where(condition, other=fill_value))", "data_array.where(~condition, other=fill_value))", 'R08.2'),
     V('C08', 'mask-any-overlap', _M, "        if dimensions >= set(mask_data_array.dims):", "        if dimensions & set(mask_data_array.dims):", 'R08.2'),
